@@ -282,7 +282,7 @@ func famIdentity(w *World, c *Case, rng *rand.Rand) {
 				if r.Extra["tunnel_md_ok"] != "true" || r.Extra["tunnel_md"] != wantTMD {
 					w.Violate("C17", "caller-tunnel-metadata-wrong", "rpc %s (tunnel %s, %s): TunnelMetadataFromOutgoingContext = %s, opened with %s", s.ID, ident, w.Cfg.Dir, r.Extra["tunnel_md"], wantTMD)
 				}
-			case r.Side == "client" && r.K == "invoke" && r.Err == "":
+			case r.Side == "client" && ((r.K == "invoke" && r.Err == "") || (r.K == "opts" && r.Extra["chan_opt"] != "")):
 				w.Stat("identity_caller_reads", 1)
 				if r.Extra["chan_opt"] != fmt.Sprintf("%p", ti.ch) {
 					w.Violate("C17", "with-tunnel-channel-wrong", "rpc %s answered by %s: WithTunnelChannel = %s, the carrying channel is %p", s.ID, ident, r.Extra["chan_opt"], ti.ch)
